@@ -221,6 +221,8 @@ pub struct HistoryStats {
     pub read_exact_past_end: u64,
     pub seeks_to_reported: u64,
     pub seeks_u: u64,
+    /// async reader only: seeks issued through poll_seek
+    pub poll_seeks: u64,
     pub bytes_checked: u64,
     /// highest flat offset up to which data was delivered (exclusive)
     pub max_offset_read: u64,
@@ -765,6 +767,9 @@ pub fn record_history_stats(stats: &mut Stats, st: &HistoryStats) {
     stats.probe("read_exact_past_end", st.read_exact_past_end);
     stats.probe("seek_to_reported_position", st.seeks_to_reported);
     stats.probe("seek_by_uncompressed_offset", st.seeks_u);
+    if st.poll_seeks > 0 {
+        stats.probe("async_poll_seek", st.poll_seeks);
+    }
     stats.probe("bytes_checked", st.bytes_checked);
     stats.probe("reader_ops", st.ops_done);
 }
